@@ -407,10 +407,18 @@ THEOREMS = THEOREMS + [
     run_san_sched BOXHEADER_MAX_SIZE (pending_reader (stk_reader ms st)) (sanitize_prog cfg fuel) (stack_init ms st data) sc
     = Some (mp4_sanitize cfg true ms inp fuel, s', sc')"""),
 ]
-REQUIRES_FOR = {"C12_mp4_async_is_model": _SREQ, "C12_sanitizer_ops_sched_indep": _SREQ, "C12_mp4_sanitizer_sched_indep": _SREQ,
+_DREQ = ["From Coq Require Import List NArith ZArith Bool.",
+         "From MS Require Import Base.Bytes Base.Outcome Base.Cursor Base.Adapters Base.Async Base.AsyncSpec Base.AsyncD7Proofs Props.C12d.",
+         "Open Scope N_scope."]
+THEOREMS = THEOREMS + [
+    ("C12_poll_stream_len_D7_is_all", """forall (c : cur) (sc : sch), small c ->
+  exists s' sc', drive_all (apoll_len (pending_seeker (std_cursor U64MAXN))) c sc = Some (Ok (clen c), s', sc') /\\
+                 cdata s' = cdata c /\\ (cpos s' = cpos c \\/ cpos s' = clen c)"""),
+]
+REQUIRES_FOR = {"C12_poll_stream_len_D7_is_all": _DREQ, "C12_mp4_async_is_model": _SREQ, "C12_sanitizer_ops_sched_indep": _SREQ, "C12_mp4_sanitizer_sched_indep": _SREQ,
                 "C12_mp4_sanitizer_native_sched_indep": _SREQ}
-COQ_TARGETS = COQ_TARGETS + ["theories/Props/C12s.vo"]
-COQCHK = COQCHK + ["MS.Props.C12s"]
+COQ_TARGETS = COQ_TARGETS + ["theories/Props/C12s.vo", "theories/Props/C12d.vo"]
+COQCHK = COQCHK + ["MS.Props.C12s", "MS.Props.C12d"]
 
 LEVEL_TEXT = ("Theorems (Coq, for ALL schedules, by induction on the schedule): the poll functions of SeekSkipAdapter (poll_skip, "
               "poll_stream_position), of futures BufReader (poll_read, poll_fill_buf, poll_skip, poll_stream_position, poll_stream_len) over ANY "
@@ -420,7 +428,9 @@ LEVEL_TEXT = ("Theorems (Coq, for ALL schedules, by induction on the schedule): 
               "(fill_buf().is_empty(), read_exact, skip, position, length over futures BufReader(32), Mp4/San.v's sanitize_prog, every config and "
               "input: C12_mp4_sanitizer_sched_indep), and composed with C11's stack refinement: under every schedule the async run over any adapter "
               "stack on in-memory data returns what the abstract model mp4_sanitize returns (C12_mp4_async_is_model). SeekSkipAdapter::poll_stream_len is REFUTED "
-              "(C12_poll_stream_len_refuted, finding D7) and proved for every schedule that does not suspend its restoring seek. Plus "
+              "(C12_poll_stream_len_refuted, finding D7), proved for every schedule that does not suspend its restoring seek, and the defect is "
+              "characterised completely (C12_poll_stream_len_D7_is_all: under EVERY schedule the value is the right length, the data is untouched "
+              "and the cursor is left where it was or at the end of the stream - nothing else). Plus "
               "model/implementation correspondence under every subset of <= 3 suspended polls, and sanitizer-level runs of mp4san::sanitize_async "
               "against the synchronous result. 'For every Pending schedule' is a universally quantified statement: a proof by induction on the "
               "schedule decides it, sampling subsets cannot.")
